@@ -93,6 +93,10 @@ def handle : List String → String
       | some i => toString (i + 7)
       | none => "none"
     | none => "bad-op"
+  | ["maskgrid", k, n] =>           -- rows y = 0..n-1 of mask condition k
+    match parseNat? k, parseNat? n with
+    | some k, some n => showMatrix ((List.range n).map (fun y => (List.range n).map (fun x => maskBit k x y)))
+    | _, _ => "bad-op"
   | ["mask", k, x, y] =>
     match parseNat? k, parseNat? x, parseNat? y with
     | some k, some x, some y => if maskBit k x y then "1" else "0"
